@@ -167,6 +167,89 @@ Theorem C20_from_file_opened : forall parse app_ok sched data,
 Proof. exact from_file_opened. Qed.
 Print Assumptions C20_from_file_opened.
 
+(* ---- the file, not only the descriptor: a file system path -> contents, open() flags as data
+   (TO_FILE_FLAGS = O_WRONLY|O_TRUNC|O_CREAT, FROM_FILE_FLAGS = O_RDONLY) ---- *)
+
+(* every initial file system — fresh path, existing longer file, existing shorter file, a second
+   write to the same path: after a successful json_object_to_file_ext the file holds exactly the
+   bytes of the serialization and no other file changed *)
+Theorem C20_to_file_holds_serialization : forall fs p sched ser,
+  Forall ge1 sched -> zlen (c_str ser) <= wsum sched ->
+  exists calls fs',
+    object_to_file_fs None fs p sched false (Some ser) = (WRet 0 false (c_str ser) calls, fs', 1, 1)
+    /\ fs_get fs' p = Some (c_str ser)
+    /\ (forall q, q <> p -> fs_get fs' q = fs_get fs q).
+Proof. exact to_file_holds_serialization. Qed.
+Print Assumptions C20_to_file_holds_serialization.
+
+(* every schedule: the file holds exactly what the descriptor received; closed once on return *)
+Theorem C20_to_file_fs_shape : forall fs p sched ser,
+  exists fs' closes,
+    object_to_file_fs None fs p sched false ser = (object_to_fd sched false ser, fs', 1, closes)
+    /\ fs_get fs' p = Some (wout_dev (object_to_fd sched false ser))
+    /\ (forall q, q <> p -> fs_get fs' q = fs_get fs q)
+    /\ (forall rc m d c, object_to_fd sched false ser = WRet rc m d c -> closes = 1).
+Proof. exact to_file_fs_shape. Qed.
+Print Assumptions C20_to_file_fs_shape.
+
+Theorem C20_to_file_error : forall fs p pre e post ser,
+  Forall ge1 pre -> wsum pre < zlen (c_str ser) ->
+  exists fs',
+    object_to_file_fs None fs p (pre ++ Err e :: post) false (Some ser) =
+      (WRet (-1) true (zfirstn (wsum pre) (c_str ser)) (zlen pre + 1), fs', 1, 1)
+    /\ fs_get fs' p = Some (zfirstn (wsum pre) (c_str ser))
+    /\ (forall q, q <> p -> fs_get fs' q = fs_get fs q).
+Proof. exact to_file_error. Qed.
+Print Assumptions C20_to_file_error.
+
+Theorem C20_to_file_open_denied : forall e fs p sched ser,
+  object_to_file_fs (Some e) fs p sched false ser = (WRet (-1) true [] 0, fs, 1, 0).
+Proof. exact to_file_open_denied. Qed.
+Print Assumptions C20_to_file_open_denied.
+
+(* O_TRUNC is necessary: the same function with O_WRONLY|O_CREAT leaves the stale tail of a longer
+   file behind a "successful" write *)
+Theorem C20_to_file_without_trunc_keeps_stale_tail : forall fs p old sched ser,
+  fs_get fs p = Some old -> zlen (c_str ser) < zlen old ->
+  Forall ge1 sched -> zlen (c_str ser) <= wsum sched ->
+  exists calls fs',
+    object_to_file_with TO_FILE_FLAGS_NO_TRUNC None fs p sched false (Some ser) =
+      (WRet 0 false (c_str ser) calls, fs', 1, 1)
+    /\ fs_get fs' p = Some (c_str ser ++ zskipn (zlen (c_str ser)) old)
+    /\ c_str ser ++ zskipn (zlen (c_str ser)) old <> c_str ser.
+Proof. exact to_file_without_trunc_keeps_stale_tail. Qed.
+Print Assumptions C20_to_file_without_trunc_keeps_stale_tail.
+
+(* call-by-call delivery at the advancing offset is delivery of the concatenation *)
+Theorem C20_desc_write_app : forall old off a b,
+  0 <= off <= zlen old ->
+  desc_write (desc_write old off a) (off + zlen a) b = desc_write old off (a ++ b).
+Proof. exact desc_write_app. Qed.
+Print Assumptions C20_desc_write_app.
+
+Theorem C20_from_file_fs_absent : forall fs p parse app_ok sched,
+  fs_get fs p = None ->
+  object_from_file_fs None fs p parse app_ok sched = (RRet (mkrout JNull MOpen 0 None 0), fs, 1, 0).
+Proof. exact from_file_fs_absent. Qed.
+Print Assumptions C20_from_file_fs_absent.
+
+Theorem C20_from_file_fs_present : forall fs p c parse app_ok sched,
+  fs_get fs p = Some c -> always app_ok -> Forall ge1 sched -> zlen c < zlen sched ->
+  exists reads, object_from_file_fs None fs p parse app_ok sched =
+                  (RRet (memory_result parse (-1) c reads), fs, 1, 1).
+Proof. exact from_file_fs_present. Qed.
+Print Assumptions C20_from_file_fs_present.
+
+Theorem C20_file_roundtrip : forall fs p s1 s2 ser parse app_ok,
+  Forall ge1 s1 -> zlen (c_str ser) <= wsum s1 ->
+  always app_ok -> Forall ge1 s2 -> zlen (c_str ser) < zlen s2 ->
+  exists calls fs' reads,
+    object_to_file_fs None fs p s1 false (Some ser) = (WRet 0 false (c_str ser) calls, fs', 1, 1) /\
+    object_from_file_fs None fs' p parse app_ok s2 =
+      (RRet (memory_result parse (-1) (c_str ser) reads), fs', 1, 1).
+Proof. exact file_roundtrip. Qed.
+Print Assumptions C20_file_roundtrip.
+
 (* ---- non-vacuity ---- *)
 
 Theorem C20_write_nonvacuous :
@@ -208,3 +291,24 @@ Theorem C20_read_chunked_at_buffer_size :
   exists o, object_from_fd_ex show_parse (fun _ _ => true) [Short 100000; Short 100000; Short 100000; Short 1]
               (zrepeat 32 8192) 7 = RRet o /\ r_reads o = 3 /\ r_parsed o = Some (7, zrepeat 32 8192).
 Proof. exact read_chunked_at_buffer_size. Qed.
+
+Theorem C20_file_nonvacuous :
+  let fs := [([97], [49;50;51;52;53;54;55;56;57])] in
+  object_to_file_fs None fs [97] [Short 2; Short 5] false (Some [91;49;93]) =
+    (WRet 0 false [91;49;93] 2, [([97], [91;49;93])], 1, 1)
+  /\ object_to_file_with TO_FILE_FLAGS_NO_TRUNC None fs [97] [Short 2; Short 5] false (Some [91;49;93]) =
+    (WRet 0 false [91;49;93] 2, [([97], [91;49;93;52;53;54;55;56;57])], 1, 1)
+  /\ object_to_file_fs None fs [98] [Short 9] false (Some [91;49;93]) =
+    (WRet 0 false [91;49;93] 1, [([97], [49;50;51;52;53;54;55;56;57]); ([98], [91;49;93])], 1, 1)
+  /\ object_to_file_fs None fs [97] [Short 1; Err 28] false (Some [91;49;93]) =
+    (WRet (-1) true [91] 2, [([97], [91])], 1, 1)
+  /\ object_from_file_fs None fs [98] show_parse (fun _ _ => true) [Short 9; Short 9] =
+    (RRet (mkrout JNull MOpen 0 None 0), fs, 1, 0)
+  /\ object_from_file_fs None fs [97] show_parse (fun _ _ => true) [Short 4; Short 9; Short 9] =
+    (RRet (mkrout (JArr [JInt 32; JStr [49;50;51;52;53;54;55;56;57]]) MNone 3
+                  (Some (32, [49;50;51;52;53;54;55;56;57])) 0), fs, 1, 1)
+  /\ object_to_file_with (mkofl O_RDONLY false false false false) None fs [97] [Short 9] false (Some [91;49;93]) =
+    (WRet (-1) true [] 1, fs, 1, 1)
+  /\ object_to_file_with (mkofl O_WRONLY true false true false) None fs [97] [Short 9] false (Some [91;49;93]) =
+    (WRet 0 false [91;49;93] 1, [([97], [49;50;51;52;53;54;55;56;57;91;49;93])], 1, 1).
+Proof. exact file_nonvacuous. Qed.
